@@ -21,8 +21,9 @@ pub fn prop() -> Prop {
         ],
         subs: vec![
             Sub::enumerate("triangles_grid", triangles_grid),
-            Sub::tape("triangles_random", 16, 150_000, 2_250_000, triangles_random),
-            Sub::tape("polylines", 40, 200_000, 3_000_000, polylines),
+            Sub::tape("triangles_random", 16, 150_000, 7_500_000, triangles_random),
+            Sub::tape("triangles_large", 16, 1_500, 75_000, triangles_large),
+            Sub::tape("polylines", 40, 200_000, 10_000_000, polylines),
         ],
     }
 }
@@ -195,4 +196,17 @@ fn polylines(d: &mut Dec, cx: &mut Cx) -> Res {
     });
     cx.nontrivial(v.len() >= 3 && repeated);
     Ok(())
+}
+
+
+/// Triangles spanning 100..=300 px.
+fn triangles_large(d: &mut Dec, cx: &mut Cx) -> Res {
+    let Shape::Triangle(t) = gen::large_shape(d, 4, 100, 300) else { unreachable!() };
+    let [a, b, c] = t.vertices;
+    let o = orient(a, b, c);
+    let fourth = if o != 0 { Some(a + b - c) } else { None };
+    cx.describe(|| format!("{:?} fourth vertex {:?}", t, fourth));
+    cx.class(if o == 0 { "degenerate" } else { "with_adjacent" });
+    cx.nontrivial(nontrivial_triangle(a, b, c));
+    check_triangle(a, b, c, fourth)
 }
